@@ -47,6 +47,11 @@ def run(run):
         select_structure(run, lc)
         one_handler_per_iteration(run, lc)
         kill_arm(run, lc)
+        # "it then runs on_stop(killed=true) ... and reports killed=true": the hook-order and exit-table rules of C04 / C05 on the
+        # lifecycle (on_stop awaited in place to completion exactly once on the kill path, result built from that path)
+        from rules import c04, c05
+        c04.check_lifecycle(run, lc)
+        c05.exit_table(run, lc)
 
 
 def blocking_calls(f, root_def, depth=3, seen=None):
